@@ -13,3 +13,6 @@ pub mod set;
 mod truth_table;
 
 mod symbols;
+
+#[cfg(feature = "verif-hooks")]
+pub mod verif_hooks;
